@@ -251,6 +251,19 @@ def R4():   # the importer stops reading at once but exits 0: the run reported s
         shutil.rmtree(root, ignore_errors=True)
 
 
+def N16():  # --target given as a relative path: the marks went to <target>/<target>/.git/…, commit-map came out empty
+    root, repo = new_repo()
+    try:
+        commit(repo, {'f': '1'}, 'c1'); commit(repo, {'f': '12'}, 'c2')
+        subprocess.run(['git', 'init', '-q', os.path.join(root, 'b')], check=True, env=e2e.GIT_ENV, stdout=subprocess.DEVNULL)
+        p = subprocess.run([e2e.FR, '--source', os.path.basename(repo), '--target', 'b', '--force'], cwd=root, stdout=subprocess.PIPE, stderr=subprocess.PIPE, env=e2e.GIT_ENV, timeout=120)
+        cm = os.path.join(root, 'b', '.git', 'filter-repo', 'commit-map')
+        lines = open(cm).read().splitlines() if os.path.exists(cm) else []
+        return p.returncode != 0 or len(lines) != 2 or os.path.exists(os.path.join(root, 'b', 'b'))
+    finally:
+        shutil.rmtree(root, ignore_errors=True)
+
+
 def F12():  # file replaced by a directory of the same name in one commit: the directory's files are lost
     root, repo = new_repo()
     try:
